@@ -59,7 +59,7 @@ def run(tier, seed):
     out = common.validate_into(res, norm_path, "Trace_Cluster.tla", "Trace_Cluster.cfg", CHECKS, devs,
                                "/dev/null", wd, {c["id"]: c for c in cases})
     res.coverage.update({
-        "states": 1, "transitions": 1, "model": "Trace_Cluster.tla (ClusterMonitor reference, group BUDGET)",
+        "states": out["states"], "transitions": out["events"], "model": "Trace_Cluster.tla (ClusterMonitor reference, group BUDGET)",
         "traces_validated_against_impl": out["runs"], "events_validated": out["events"], "cases": len(cases),
         "samples": [[o["line"] + " @" + o["node"] for o in cases[len(cases) // 2]["ops"]]],
         "exhaustive": False,
